@@ -8,6 +8,7 @@ BUILD = os.path.join(VERIF, '.build')
 DRIVER = os.path.join(BUILD, 'driver', 'driver')
 HARNESS = os.path.join(BUILD, 'harness-target', 'debug', 'rv-harness')
 NCPU = 16
+os.environ.setdefault('RV_SCRATCH', os.path.join(BUILD, 'scratch'))
 
 
 def hx(s):
